@@ -54,9 +54,10 @@ Record Base (ts0 ts : list task) (own : wakers) (nid : N) : Prop := {
 (* the messages in the event set: one for every unspawned task that is not exempt ([later]) *)
 Record Msgs (ts : list task) (l : list ev) (later : nat -> Prop) : Prop := {
   m_task : forall e, In e l -> 2 <= epay e ->
-           exists k tk, epay e = msg_of k /\ nth_error ts k = Some tk /\ unspawned tk /\ etime e = t_start tk;
+           exists k tk, epay e = msg_of k /\ nth_error ts k = Some tk /\ unspawned tk /\ etime e = t_start tk /\ 0 < etime e;
   m_nodup : NoDup (filter (fun p => 2 <=? p) (map epay l));
-  m_all : forall k tk, nth_error ts k = Some tk -> unspawned tk -> later k \/ exists e, In e l /\ epay e = msg_of k }.
+  m_all : forall k tk, nth_error ts k = Some tk -> unspawned tk -> later k \/ exists e, In e l /\ epay e = msg_of k;
+  m_later : forall k, later k -> exists tk, nth_error ts k = Some tk /\ unspawned tk }.
 
 (* at an event boundary; l0, l1: the instants of the last event of module 0 / 1 *)
 Record WInv (ts0 : list task) (later : nat -> Prop) (w : world) : Prop := {
